@@ -392,6 +392,9 @@ def _tail(b, names):
                 market.AddSupplier(home)
         else:
             raise ValueError(l)
+    if spec.get('ext') and (spec.get('manual_gold') or any(c['gov'] in ('GOLD', 'GOLDCB') for c in spec['countries'])):
+        # a gold price that is not 1 and moves (the default price of 1.0 hides any slip between ounces and numeraire)
+        m.ExternalSector['GOLD'].SetExogenous('PRICE', '[35., 35., 36., 38.] + [38.,] * 8')
     if spec.get('ext'):
         xr = m.ExternalSector['XR']
         for cur, pid in sorted(spec.get('xr', {}).items()):
